@@ -33,8 +33,8 @@ class FakeRaw:
 
 
 class FakeResp:
-  def __init__(self, payload, fail_at_block, bad_status):
-    self.headers = {'content-length': str(len(payload))}
+  def __init__(self, payload, fail_at_block, bad_status, no_length=False):
+    self.headers = {} if no_length else {'content-length': str(len(payload))}
     self.raw = FakeRaw(payload, fail_at_block)
     self.bad = bad_status
 
@@ -64,7 +64,7 @@ def check_download(inp):
           calls['n'] += 1
           if _f == 'connect':
             raise Boom('no route')
-          return FakeResp(payload, _f if isinstance(_f, int) else None, _f == 'status')
+          return FakeResp(payload, _f if isinstance(_f, int) else None, _f == 'status', no_length=(_f == 'nolength'))
         downloads.requests.get = fake_get
         real_log, real_time = downloads.log, downloads.time.time
         try:
@@ -91,6 +91,10 @@ def check_download(inp):
             got = downloads.maybe_download('http://x/y/data.bin', d, progress_=range)
         except Boom:
           got = None
+        except KeyError:
+          if f != 'nolength':
+            raise
+          got = None           # a response without content-length: refusing it is fine, caching a truncated file is not
         finally:
           downloads.log, downloads.time.time = real_log, real_time
         if os.path.exists(final) and open(final, 'rb').read() != payload:
@@ -110,7 +114,7 @@ def sweep_download(tier, seed):
   for size in (0, 1, BLOCK - 1, BLOCK, BLOCK + 1, 3 * BLOCK):
     nblocks = -(-size // BLOCK)
     yield dict(size=size, faults=[])
-    for f in ['connect', 'status'] + list(range(nblocks)):
+    for f in ['connect', 'status', 'nolength'] + list(range(nblocks)):
       yield dict(size=size, faults=[f])
       yield dict(size=size, faults=[f, f])
       yield dict(size=size, faults=[f, 'connect', f])
